@@ -156,7 +156,7 @@ thread_local! {
 /// The replayed world: one environment, its committed content and the open write transaction.
 struct World<'e> {
     db: RawDb,
-    env: &'e heed::Env,
+    env: &'e crate::common::Env,
     wtxn: Option<heed::RwTxn<'e>>,
     committed_model: Model,
     model: Model,
@@ -167,7 +167,7 @@ impl<'e> World<'e> {
     /// Resets the environment with a real transaction: empty, or — when the configuration
     /// has a prefix (which must end with a commit) — to the committed content the prefix
     /// produced when it was really executed once in this worker.
-    fn new(env: &'e heed::Env, db: RawDb, cfg: &TxnCfg, preload: Option<&(Kv, Model)>) -> World<'e> {
+    fn new(env: &'e crate::common::Env, db: RawDb, cfg: &TxnCfg, preload: Option<&(Kv, Model)>) -> World<'e> {
         let mut w = env.write_txn().expect("wtxn");
         db.clear(&mut w).expect("clear");
         let (model, kv) = match preload {
@@ -648,7 +648,7 @@ fn observe_index(cfg: &TxnCfg, db: RawDb, rtxn: &RoTxn, index: u16, ix: &IndexMo
 
 /// C19: a battery of calls that must be rejected (or be no-ops), each inside a nested
 /// transaction that is aborted afterwards, with the dump compared before the abort.
-fn rejected_probes(cfg: &TxnCfg, env: &heed::Env, db: RawDb, wtxn: &mut heed::RwTxn, model: &Model, kv: &Kv, w: &mut Worker) -> Vec<Violation> {
+fn rejected_probes(cfg: &TxnCfg, env: &crate::common::Env, db: RawDb, wtxn: &mut heed::RwTxn, model: &Model, kv: &Kv, w: &mut Worker) -> Vec<Violation> {
     let mut out = Vec::new();
     for (index, ix) in &model.indexes {
         let dim = ix.dim;
